@@ -66,7 +66,7 @@ MANIFEST = {
     }
 }
 PROPS = ["Nstd.Codec.Props", "Nstd.Codec.PropsNum", "Nstd.Codec.PropsUtf8", "Nstd.Codec.PropsBody", "Nstd.Codec.PropsBodyStr",
-         "Nstd.Codec.PropsBodyNum", "Nstd.Codec.PropsBodyUtf16"]
+         "Nstd.Codec.PropsBodyNum", "Nstd.Codec.PropsBodyUtf16", "Nstd.Codec.PropsBodyFmt"]
 DRIVER = "drv_codec"
 LEAN_TARGETS = PROPS + [DRIVER]
 SOURCES = ["codec.cpp", C.REPO / "src/String.cpp", C.REPO / "src/Memory.cpp"]
@@ -76,13 +76,29 @@ B64SYMS = list(B64ALPHA) + [0x3D, 0x80, 0xFF, 0x7B]
 M64 = (1 << 64) - 1
 
 
+def gen_strbody(ctx=None):
+    """PropsBodyFmt.lean speaks about the Str area's translation of String::printf (Nstd/Generated/StrBody.lean, written by
+    tools/gen_str.py - used read-only): regenerate it from THIS run's sources so that the theorem is about the current body.
+    A refusal of that translator is the Str area's (C06) broken tie, not C18's: noted, the last translation stays."""
+    try:
+        import gen_str
+        ok, msg = gen_str.run(C.REPO)
+    except Exception as ex:                                    # noqa: BLE001 - another area's tool must not take this check down
+        ok, msg = False, repr(ex)
+    if ctx is not None:
+        ctx.cov["strbody_translation_of_String_printf"] = ("regenerated " if ok else "NOT regenerated: ") + str(msg)[:200]
+    return ok
+
+
 def setup():
     ok, msg = gen_codec.gen()
     if not ok:
         print("gen_codec:", msg)
+    gen_strbody()
 
 
 def gen(ctx):
+    gen_strbody(ctx)
     r = gen_codec.gen(ctx, C.REPO)
     if ctx is not None and r[0]:
         try:                     # what the body translator produced on THIS run (measured from the generated files)
